@@ -74,6 +74,9 @@ package k8s
 //@     pts(t, q, n) == (old(pts(t, q, n)) || (old(pts(x, q, n)) && !old(pts(a, q, n)) && !old(pts(b, q, n))))
 
 //@ pred sepPCPC(a *PolicyConnections, b *PolicyConnections) = sepPCCS(a, b.AllowedConns) && sepPCCS(a, b.DeniedConns) && sepPCCS(a, b.PassConns)
+// every PolicyConnections that existed at entry still refers to the same three sets
+//@ pred pcFieldsKept() = forall p *PolicyConnections :: {p.AllowedConns} {p.DeniedConns} {p.PassConns} old(allocated(p)) ==>
+//@     (p.AllowedConns == old(p.AllowedConns) && p.DeniedConns == old(p.DeniedConns) && p.PassConns == old(p.PassConns))
 
 // frame of merging npc into pc: a well-formed set that shares nothing with the six sets is untouched and stays apart
 //@ pred sep6(t *common.ConnectionSet, pc *PolicyConnections, npc *PolicyConnections) = sepCS(pc.AllowedConns, t) && sepCS(pc.DeniedConns, t) && sepCS(pc.PassConns, t)
@@ -804,7 +807,13 @@ package k8s
 //@     pts(pc.PassConns, q, n) == (exists k int :: {anp.Spec.Ingress[k]} 0 <= k && k < m && anp.Spec.Ingress[k].Action == "Pass" && anpIngFirst(anp, k, src, dst, q, n))
 //@ pred anpIngVerdicts(pc *PolicyConnections, anp *AdminNetworkPolicy, m int, src Peer, dst Peer) = anpIngVerdictA(pc, anp, m, src, dst) && anpIngVerdictD(pc, anp, m, src, dst) && anpIngVerdictP(pc, anp, m, src, dst)
 
+// the verdict of the whole policy for a point: the action of the first capturing rule
+//@ fun anpIngAt(anp *AdminNetworkPolicy, src Peer, dst Peer, act string, q string, n int) bool =
+//@     exists k int :: {anp.Spec.Ingress[k]} 0 <= k && k < len(anp.Spec.Ingress) && anp.Spec.Ingress[k].Action == act && anpIngFirst(anp, k, src, dst, q, n)
 //@ func (*AdminNetworkPolicy).GetIngressPolicyConns
+//@   ensures [C02] at: res1 == nil ==> (forall q v1.Protocol, n int :: {iset(res0.AllowedConns.AllowedProtocols[q].Ports)[n]} {iset(res0.DeniedConns.AllowedProtocols[q].Ports)[n]} {iset(res0.PassConns.AllowedProtocols[q].Ports)[n]}
+//@         pts(res0.AllowedConns, q, n) == anpIngAt(anp, src, dst, "Allow", q, n) && pts(res0.DeniedConns, q, n) == anpIngAt(anp, src, dst, "Deny", q, n) && pts(res0.PassConns, q, n) == anpIngAt(anp, src, dst, "Pass", q, n))
+//@   hint ensures.at: inv.firstA, inv.firstD, inv.firstP
 //@   hide anpFieldsMatch, anpPortsPts
 //@   hint loop1.preserve.firstA: inv.firstA, inv.firstD, inv.firstP, inv.covered, call2.applied, call2.valid
 //@   hint loop1.preserve.firstD: inv.firstA, inv.firstD, inv.firstP, inv.covered, call2.applied, call2.valid
@@ -814,11 +823,13 @@ package k8s
 //@   modifies *
 //@   ensures [C02] wf: res1 == nil ==> (wfPC(res0) && disjPC(res0))
 //@   ensures [C02] frame: allKept() && (res1 == nil ==> (fresh(res0) && freshSep(res0.AllowedConns) && freshSep(res0.DeniedConns) && freshSep(res0.PassConns)))
+//@   ensures [C02] pcframe: pcFieldsKept()
 //@   hint loop1.preserve.frame: inv.frame, inv.wf, call2.frame, call2.wf
 //@   ensures [C02] firstwins: res1 == nil ==> anpIngVerdicts(res0, anp, len(anp.Spec.Ingress), src, dst)
 //@   loop 1 cut:
 //@     invariant wf: wfPC(res) && disjPC(res) && anpIngOK(anp)
 //@     invariant frame: allKept() && fresh(res) && freshSep(res.AllowedConns) && freshSep(res.DeniedConns) && freshSep(res.PassConns)
+//@     invariant pcframe: pcFieldsKept()
 //@     invariant firstA: anpIngVerdictA(res, anp, rangeindex + 1, src, dst)
 //@     invariant firstD: anpIngVerdictD(res, anp, rangeindex + 1, src, dst)
 //@     invariant firstP: anpIngVerdictP(res, anp, rangeindex + 1, src, dst)
@@ -842,7 +853,12 @@ package k8s
 //@     pts(pc.PassConns, q, n) == (exists k int :: {anp.Spec.Egress[k]} 0 <= k && k < m && anp.Spec.Egress[k].Action == "Pass" && anpEgFirst(anp, k, dst, q, n))
 //@ pred anpEgVerdicts(pc *PolicyConnections, anp *AdminNetworkPolicy, m int, dst Peer) = anpEgVerdictA(pc, anp, m, dst) && anpEgVerdictD(pc, anp, m, dst) && anpEgVerdictP(pc, anp, m, dst)
 
+//@ fun anpEgAt(anp *AdminNetworkPolicy, dst Peer, act string, q string, n int) bool =
+//@     exists k int :: {anp.Spec.Egress[k]} 0 <= k && k < len(anp.Spec.Egress) && anp.Spec.Egress[k].Action == act && anpEgFirst(anp, k, dst, q, n)
 //@ func (*AdminNetworkPolicy).GetEgressPolicyConns
+//@   ensures [C02] at: res1 == nil ==> (forall q v1.Protocol, n int :: {iset(res0.AllowedConns.AllowedProtocols[q].Ports)[n]} {iset(res0.DeniedConns.AllowedProtocols[q].Ports)[n]} {iset(res0.PassConns.AllowedProtocols[q].Ports)[n]}
+//@         pts(res0.AllowedConns, q, n) == anpEgAt(anp, dst, "Allow", q, n) && pts(res0.DeniedConns, q, n) == anpEgAt(anp, dst, "Deny", q, n) && pts(res0.PassConns, q, n) == anpEgAt(anp, dst, "Pass", q, n))
+//@   hint ensures.at: inv.firstA, inv.firstD, inv.firstP
 //@   hide anpFieldsMatch, anpPortsPts
 //@   hint loop1.preserve.firstA: inv.firstA, inv.firstD, inv.firstP, inv.covered, call2.applied, call2.valid
 //@   hint loop1.preserve.firstD: inv.firstA, inv.firstD, inv.firstP, inv.covered, call2.applied, call2.valid
@@ -852,11 +868,13 @@ package k8s
 //@   modifies *
 //@   ensures [C02] wf: res1 == nil ==> (wfPC(res0) && disjPC(res0))
 //@   ensures [C02] frame: allKept() && (res1 == nil ==> (fresh(res0) && freshSep(res0.AllowedConns) && freshSep(res0.DeniedConns) && freshSep(res0.PassConns)))
+//@   ensures [C02] pcframe: pcFieldsKept()
 //@   hint loop1.preserve.frame: inv.frame, inv.wf, call2.frame, call2.wf
 //@   ensures [C02] firstwins: res1 == nil ==> anpEgVerdicts(res0, anp, len(anp.Spec.Egress), dst)
 //@   loop 1 cut:
 //@     invariant wf: wfPC(res) && disjPC(res) && anpEgOK(anp)
 //@     invariant frame: allKept() && fresh(res) && freshSep(res.AllowedConns) && freshSep(res.DeniedConns) && freshSep(res.PassConns)
+//@     invariant pcframe: pcFieldsKept()
 //@     invariant firstA: anpEgVerdictA(res, anp, rangeindex + 1, dst)
 //@     invariant firstD: anpEgVerdictD(res, anp, rangeindex + 1, dst)
 //@     invariant firstP: anpEgVerdictP(res, anp, rangeindex + 1, dst)
@@ -934,11 +952,13 @@ package k8s
 //@   modifies *
 //@   ensures [C02] wf: res1 == nil ==> (wfPC(res0) && disjPC(res0))
 //@   ensures [C02] frame: allKept() && (res1 == nil ==> (fresh(res0) && freshSep(res0.AllowedConns) && freshSep(res0.DeniedConns) && freshSep(res0.PassConns)))
+//@   ensures [C02] pcframe: pcFieldsKept()
 //@   hint loop1.preserve.frame: inv.frame, inv.wf, call2.frame, call2.wf
 //@   ensures [C02] firstwins: res1 == nil ==> banpIngVerdicts(res0, banp, len(banp.Spec.Ingress), src, dst)
 //@   loop 1 cut:
 //@     invariant wf: wfPC(res) && disjPC(res) && banpIngOK(banp)
 //@     invariant frame: allKept() && fresh(res) && freshSep(res.AllowedConns) && freshSep(res.DeniedConns) && freshSep(res.PassConns)
+//@     invariant pcframe: pcFieldsKept()
 //@     invariant firstA: banpIngVerdictA(res, banp, rangeindex + 1, src, dst)
 //@     invariant firstD: banpIngVerdictD(res, banp, rangeindex + 1, src, dst)
 //@     invariant firstP: banpIngVerdictP(res, banp, rangeindex + 1, src, dst)
@@ -972,11 +992,13 @@ package k8s
 //@   modifies *
 //@   ensures [C02] wf: res1 == nil ==> (wfPC(res0) && disjPC(res0))
 //@   ensures [C02] frame: allKept() && (res1 == nil ==> (fresh(res0) && freshSep(res0.AllowedConns) && freshSep(res0.DeniedConns) && freshSep(res0.PassConns)))
+//@   ensures [C02] pcframe: pcFieldsKept()
 //@   hint loop1.preserve.frame: inv.frame, inv.wf, call2.frame, call2.wf
 //@   ensures [C02] firstwins: res1 == nil ==> banpEgVerdicts(res0, banp, len(banp.Spec.Egress), dst)
 //@   loop 1 cut:
 //@     invariant wf: wfPC(res) && disjPC(res) && banpEgOK(banp)
 //@     invariant frame: allKept() && fresh(res) && freshSep(res.AllowedConns) && freshSep(res.DeniedConns) && freshSep(res.PassConns)
+//@     invariant pcframe: pcFieldsKept()
 //@     invariant firstA: banpEgVerdictA(res, banp, rangeindex + 1, dst)
 //@     invariant firstD: banpEgVerdictD(res, banp, rangeindex + 1, dst)
 //@     invariant firstP: banpEgVerdictP(res, banp, rangeindex + 1, dst)
